@@ -28,7 +28,7 @@ SAMPLER_UNITS = ['add_bound', 'add_samples', 'run[verbose=False,file=False]',
                  'run[verbose=False,file=True]', 'run[verbose=True,file=False]',
                  'run[verbose=True,file=True]']
 UNITS = ['evaluate_likelihood', 'posterior_rows', 'posterior_transform'] + \
-    SAMPLER_UNITS
+    SAMPLER_UNITS + ['support:NautilusBound.worker']
 BRANCH_COVERED_FUNCTIONS = (SQ + 'evaluate_likelihood', SQ + 'add_bound',
                             SQ + 'add_samples', SQ + 'run')
 Z3_TIMEOUT_MS = 60000
@@ -63,6 +63,16 @@ def select_rows_block(fnode):
 
 
 def build(cx, fe, tier, info, only=None):
+    if only is not None and only.startswith('support:'):
+        # "every evaluated point is stored once": a pool worker returns only
+        # proposals it drew itself (unit shared with C07), so no proposal is
+        # handed out - hence evaluated and stored - twice
+        from . import C07
+        keep = _EX.get('ex')
+        C07.build(cx, fe, tier, info, only=only.split(':', 1)[1])
+        if keep is not None:
+            _EX['ex'] = keep
+        return
     if only in SAMPLER_UNITS:
         _base.build(cx, fe, tier, info, only=only)
         info['assumptions'] = [a.replace('C01:', 'C03:')
